@@ -318,6 +318,7 @@ def g_new_shell(rng, cfg):
         "share": share,
         "ctype": rng.choice(["cartesian", "spherical", "spherical", "c", "p"]),
         "cls": rng.choice(["base", "base", "base", "conv", "pyscf", "unnorm", "cartperm", "sphperm"]),
+        "array_layout": rng.choice(["c", "c", "c", "strided", "column"]),
         "icenter": rng.choice([None, None, 0, 1, 2]),
     }
 
